@@ -145,7 +145,7 @@ class Prober:
             out.append((nm, S, self.w.words(nm, 'end')))
         return out
 
-    def render(self, name, S, E, paths, prefix=()):
+    def render(self, name, S, E, paths, prefix=(), nested=()):
         w = self.w
         stream = []
         for nm, pS, pE in prefix:
@@ -153,6 +153,7 @@ class Prober:
         stream.append(w.sys(name, 1, 1, tuple(S)))
         for p in paths:
             stream += w.lookup(1, p, vid=7)
+        stream += list(nested)          # other records of the thread inside the window
         stream.append(w.sys(name, 2, 1, tuple(E)))
         p = new_parser(w)
         out = None
